@@ -66,6 +66,9 @@ pub struct Exp {
     pub elements: Vec<ExpElem>,
     /// compare elements as a multiset
     pub unordered: bool,
+    /// the query must succeed and return these elements, but which pairs it returns per element
+    /// is not documented (a selection by keys that names a key twice): values are not compared
+    pub values_unchecked: bool,
 }
 
 #[derive(Clone, Debug, PartialEq, Eq, PartialOrd, Ord, Serialize, Deserialize)]
@@ -568,6 +571,7 @@ impl RefDb {
                         result: elements.len() as u64,
                         elements,
                         unordered: false,
+                        values_unchecked: false,
                     }));
                 }
                 let n = std::cmp::max(*count as usize, aliases.len());
@@ -603,6 +607,7 @@ impl RefDb {
                     result: elements.len() as u64,
                     elements,
                     unordered: false,
+                    values_unchecked: false,
                 }))
             }
             CQuery::InsertEdges {
@@ -628,6 +633,7 @@ impl RefDb {
                         result: elements.len() as u64,
                         elements,
                         unordered: false,
+                        values_unchecked: false,
                     }));
                 }
                 let mut f = self.ids_of(from)?;
@@ -673,6 +679,7 @@ impl RefDb {
                     result: elements.len() as u64,
                     elements,
                     unordered: false,
+                    values_unchecked: false,
                 }))
             }
             CQuery::InsertAliases { ids, aliases } => {
@@ -699,6 +706,7 @@ impl RefDb {
                     result: n,
                     elements: vec![],
                     unordered: false,
+                    values_unchecked: false,
                 }))
             }
             CQuery::InsertValues { ids, values } => {
@@ -774,6 +782,7 @@ impl RefDb {
                     result,
                     elements,
                     unordered: false,
+                    values_unchecked: false,
                 }))
             }
             CQuery::InsertIndex(k) => {
@@ -791,6 +800,7 @@ impl RefDb {
                     result: n,
                     elements: vec![],
                     unordered: false,
+                    values_unchecked: false,
                 }))
             }
             CQuery::RemoveIndex(k) => {
@@ -806,6 +816,7 @@ impl RefDb {
                     result: n,
                     elements: vec![],
                     unordered: false,
+                    values_unchecked: false,
                 }))
             }
             CQuery::Remove(ids) => {
@@ -832,6 +843,7 @@ impl RefDb {
                     result: n,
                     elements: vec![],
                     unordered: false,
+                    values_unchecked: false,
                 }))
             }
             CQuery::RemoveAliases(list) => {
@@ -846,6 +858,7 @@ impl RefDb {
                     result: n,
                     elements: vec![],
                     unordered: false,
+                    values_unchecked: false,
                 }))
             }
             CQuery::RemoveValues { ids, keys } => {
@@ -863,6 +876,7 @@ impl RefDb {
                     result: n,
                     elements: vec![],
                     unordered: false,
+                    values_unchecked: false,
                 }))
             }
             CQuery::SelectValues { ids, keys } => {
@@ -896,10 +910,12 @@ impl RefDb {
                 if silent {
                     return Ok(Pred::Silent);
                 }
+                let repeated = keys.iter().enumerate().any(|(i, k)| keys[..i].contains(k));
                 Ok(Pred::Ok(Exp {
                     result: elements.len() as u64,
                     elements,
                     unordered: false,
+                    values_unchecked: repeated,
                 }))
             }
             CQuery::SelectKeys(ids) => {
@@ -919,6 +935,7 @@ impl RefDb {
                     result: elements.len() as u64,
                     elements,
                     unordered: false,
+                    values_unchecked: false,
                 }))
             }
             CQuery::SelectKeyCount(ids) => {
@@ -936,6 +953,7 @@ impl RefDb {
                     result: total,
                     elements,
                     unordered: false,
+                    values_unchecked: false,
                 }))
             }
             CQuery::SelectAliases(ids) => match ids {
@@ -950,6 +968,7 @@ impl RefDb {
                         result: elements.len() as u64,
                         elements,
                         unordered: false,
+                        values_unchecked: false,
                     }))
                 }
                 QIds::Search(s) => {
@@ -963,6 +982,7 @@ impl RefDb {
                         result: elements.len() as u64,
                         elements,
                         unordered: false,
+                        values_unchecked: false,
                     }))
                 }
             },
@@ -976,6 +996,7 @@ impl RefDb {
                     result: elements.len() as u64,
                     elements,
                     unordered: true,
+                    values_unchecked: false,
                 }))
             }
             CQuery::SelectEdgeCount { ids, from, to } => {
@@ -998,6 +1019,7 @@ impl RefDb {
                     result: total,
                     elements,
                     unordered: false,
+                    values_unchecked: false,
                 }))
             }
             CQuery::SelectIndexes => {
@@ -1022,12 +1044,14 @@ impl RefDb {
                         values: vals,
                     }],
                     unordered: true,
+                    values_unchecked: false,
                 }))
             }
             CQuery::SelectNodeCount => Ok(Pred::Ok(Exp {
                 result: self.nodes.len() as u64,
                 elements: vec![],
                 unordered: false,
+                values_unchecked: false,
             })),
             CQuery::Search(s) => {
                 if s.algo != Algo::Index
@@ -1044,6 +1068,7 @@ impl RefDb {
                     result: elements.len() as u64,
                     elements,
                     unordered: s.algo == Algo::Index,
+                    values_unchecked: false,
                 }))
             }
         }
